@@ -242,6 +242,15 @@ def _scenarios():
                                        lambda d: [])
         S[tname + ":alias-nosuffix"] = Scenario(
             tname, one_in, (lambda fn: lambda d, ins: fn(path_in=ins[0], path_out=d / "in"))(fn), lambda d: [])
+        S[tname + ":alias-dotdot"] = Scenario(
+            tname, one_in, (lambda fn: lambda d, ins: fn(path_in=ins[0], path_out=d / "parts" / ".." / "in.rtdc"))(fn),
+            lambda d: [])
+
+        def _call_link(d, ins, fn=fn):
+            # the requested output is a symbolic link to the input
+            (d / "link.rtdc").symlink_to(ins[0])
+            return fn(path_in=ins[0], path_out=d / "link.rtdc")
+        S[tname + ":alias-symlink"] = Scenario(tname, one_in, _call_link, lambda d: [])
         S[tname + ":alias-temp"] = Scenario(
             tname, lambda d: [make_rtdc(d / "x.rtdc~")],
             (lambda fn: lambda d, ins: fn(path_in=ins[0], path_out=d / "x.rtdc", check_suffix=False))(fn),
